@@ -609,6 +609,18 @@ def make_module(I):
         return st.alloc(NdE(shape, [Fraction(1)] * size(shape)))
 
     reg("ones", ones)
+
+    def arange(I, st, n, dtype=None):
+        """np.arange(n[, dtype=float/np.float64/int]) for a concrete non-negative int n: 0, 1, ..., n-1"""
+        if not isinstance(n, int) or isinstance(n, bool):
+            raise Unsupported("np.arange with a symbolic / non-integer bound")
+        isfloat = isinstance(dtype, BuiltinClass) and dtype.name == "float"
+        if dtype is not None and not isfloat and not (isinstance(dtype, BuiltinClass) and dtype.name == "int"):
+            raise Unsupported("np.arange dtype")
+        m = max(n, 0)
+        return st.alloc(NdE((m,), [Fraction(x) if isfloat else x for x in range(m)]))
+
+    reg("arange", arange)
     reg("dot", lambda I, st, a, b: dot(I, st, a, b))
 
     def elementwise(fn):
